@@ -235,6 +235,8 @@ class CEval:
             if name in ('pi', 'e', 'inf', 'nan', 'tau'):
                 return getattr(math, name)
             raise NotConst('math.' + name)
+        if isinstance(v, (ClassRef, FuncRef)) and name in ('__name__', '__qualname__'):
+            return v.name
         if isinstance(v, (ClassRef, ModRef)):
             r = self.lookup_attr(v, name)
             return r
